@@ -61,6 +61,12 @@ def enumerate_cases(tier, seed):
             for cond in (None, 2):
                 cases.append({"id": f"f64|factory|{f}|invert={int(inv)}|cond={cond}", "factory": f, "invert": inv,
                               "cond": cond, "x64": True, "tier": tier, "seed": seed})
+    # planar layers whose weight vector is exactly zero / so small that |w|^2 underflows (zero-initialised or pruned layer): the
+    # guarded branch of the constraint is the one in force, identities that hold for w != 0 do not
+    for sp in ({"k": "Planar", "dim": 2, "cond": None, "slope": 0.1, "w0": True}, {"k": "Planar", "dim": 2, "cond": 2, "slope": 0.1, "w0": True},
+               {"k": "Planar", "dim": 3, "cond": None, "slope": 3.0, "w0": True}, {"k": "Planar", "dim": 2, "cond": None, "slope": None, "w0": True}):
+        for x64 in (True, False):
+            cases.append({"id": ("f64|" if x64 else "f32|") + g.canon(sp), "spec": sp, "x64": x64, "tier": tier, "seed": seed})
     # the factories again at dimension 1 and 3 (dimension-dependent structure: the default permutation between layers is none /
     # a flip / a random permutation, the coupling split is dim // 2, block shapes scale with dim)
     for f in FACTORIES:
